@@ -460,6 +460,9 @@ func blockContainerLayout(context *layoutContext, box_ Box, bottomSpace pr.Float
 			for _, footnote := range newFootnotes {
 				context.unlayoutFootnote(footnote)
 			}
+			if establishesFormattingContext(box_) {
+				context.abortBlockFormattingContext()
+			}
 
 			return nil, blockLayout{nextPage: tree.PageBreak{Break: "any", Page: page_}}, maxLines
 		} else if stop {
@@ -487,6 +490,9 @@ func blockContainerLayout(context *layoutContext, box_ Box, bottomSpace pr.Float
 	if bi := string(box.Style.GetBreakInside()); boxIsFragmented && avoidPageBreak(bi, context) && !pageIsEmpty {
 		for _, footnote := range allFootnotes {
 			context.unlayoutFootnote(footnote)
+		}
+		if establishesFormattingContext(box_) {
+			context.abortBlockFormattingContext()
 		}
 
 		return nil, blockLayout{nextPage: tree.PageBreak{Break: "any"}}, maxLines
